@@ -3,7 +3,7 @@
 copy of /verif that are bind-mounted over /repo and /verif inside a private mount namespace (so the checks run exactly
 as registered, and /repo and /verif themselves are untouched).
 
-usage: eval_patch.py <slot> <patch.diff> [--base <rev>] [--tier quick|thorough] [--ids C01,C02] [--seed N]
+usage: eval_patch.py <slot> <patch.diff> [--base <rev>] [--tier quick|thorough] [--ids C01,C02] [--seed N] [--verif-rev <rev>]
 Prints one JSON object: {patch_applies, tests_ok, checks: {id: {exit, line}}}.  Used for the property-preserving
 refactorings (DESIGN §15: no check may fire) and for ad-hoc experiments.
 """
@@ -20,13 +20,19 @@ def main():
     a = sys.argv[3:]
     opt = lambda k, d: a[a.index(k) + 1] if k in a else d
     base, tier, ids, seed = opt("--base", "HEAD"), opt("--tier", "quick"), opt("--ids", ",".join(f"C{n:02d}" for n in range(1, 21))), opt("--seed", "1")
+    verif_rev = opt("--verif-rev", None)
     w = f"/tmp/ev/{slot}"
     os.makedirs(w, exist_ok=True)
     sh(f"git -C /repo worktree remove --force {w}/repo; git -C /repo worktree prune")
     rc, o = sh(f"git -C /repo worktree add -q --detach {w}/repo {base}")
     if rc != 0:
         print(json.dumps({"error": o[-400:]})); return
-    sh(f"rsync -a --delete --exclude .git --exclude seeded --exclude replays --exclude mutation --exclude harness/target --exclude harness/gen_specs --exclude harness/gen_reject /verif/ {w}/verif/")
+    # the checks as COMMITTED (default HEAD of /verif; --verif-rev <rev> for an earlier state, "WORKTREE" for the working
+    # tree as it is): edits in progress in /verif never leak into an evaluation
+    if verif_rev == "WORKTREE":
+        sh(f"rsync -a --delete --exclude .git --exclude seeded --exclude replays --exclude mutation --exclude harness/target --exclude harness/gen_specs --exclude harness/gen_reject /verif/ {w}/verif/")
+    else:
+        sh(f"mkdir -p {w}/verif && find {w}/verif -mindepth 1 -maxdepth 1 ! -name harness -exec rm -rf {{}} + ; find {w}/verif/harness -mindepth 1 -maxdepth 1 ! -name target -exec rm -rf {{}} + 2>/dev/null; git -C /verif archive {verif_rev or 'HEAD'} | tar -x -C {w}/verif --exclude=seeded")
     if not os.path.exists(f"{w}/verif/harness/target"):
         sh(f"rsync -a /verif/harness/target {w}/verif/harness/")
     res = {"patch": patch, "base": base, "tier": tier}
